@@ -99,8 +99,25 @@ macro_rules! prim_i {
     };
 }
 
+/// `[-]hex` as exactly `len` little-endian words (zero padded)
+fn padded(s: &str, len: usize) -> Vec<Word> {
+    let (_, mut w) = hex_words(s);
+    assert!(w.len() <= len, "value longer than the slice");
+    w.resize(len, 0);
+    w
+}
+
 fn run(op: &str, a: &[&str]) -> String {
     match op {
+        // ------------------------------------------------------------------ hook level: Karatsuba square root kernel
+        // `ksqrt <n> <a>`: a normalised to 2n words; answer: root, low n words of the remainder, its carry
+        "ksqrt" => {
+            let n = usz(a[0]);
+            let mut buf = padded(a[1], 2 * n);
+            let mut out = vec![0 as Word; n];
+            let c = dashu_int::verif_hooks::sqrt_rem_kernel(&mut out, &mut buf);
+            format!("ok {} {} {}", words_hex(false, &out), words_hex(false, &buf[..n]), c as u8)
+        }
         // ------------------------------------------------------------------ gcd
         "gcd" => {
             let (x, y) = (ibig(a[1]), ibig(a[2]));
